@@ -61,7 +61,8 @@ def gen_case(rng):
     kind, tmpl, frag, where, tok = rng.choice(FAULTS)
     before = [rng.choice(GOOD) for _ in range(rng.choice([0, 1, 3, 6]))]
     after = [rng.choice(GOOD) for _ in range(rng.choice([0, 1, 3]))]
-    env = rng.choice(["plain", "plain", "kept-block", "dead-block-before", "else-block", "include", "same-line", "crlf", "formfeed"])
+    env = rng.choice(["plain", "plain", "kept-block", "dead-block-before", "else-block", "include", "same-line", "crlf", "formfeed",
+                      "raw-newline-string", "block-comment-lines"])
     pre_lines = ["LABEL(top)"] + before
     fault_line = layout_line(rng, tmpl.replace("{X}", "\x01" + tok + "\x02"))
     if kind == "data-after-code":
@@ -75,6 +76,12 @@ def gen_case(rng):
         lines += ["#ifndef HERA_PY", "junk junk", "#else", fault_line, "#endif"]
     elif env == "same-line":
         lines += [rng.choice(GOOD[:4]) + "  " + fault_line]
+    elif env == "raw-newline-string":
+        # a string literal with real line breaks between its quotes, before the fault (sometimes on its line)
+        lit = 'print("one\ntwo{}")'.format(rng.choice(["", "\nthree", "\n"]))
+        lines += [lit + rng.choice(["\n", "  "]) + fault_line]
+    elif env == "block-comment-lines":
+        lines += ["/* a comment\n   over several\n   lines */ " + rng.choice(["", "\n"]) + fault_line]
     else:
         lines += [fault_line]
     lines += after
